@@ -4,6 +4,8 @@
 Require Import F204.Base.Util F204.Base.Mach F204.Base.Bits F204.Gen.Params
   F204.Impl.Helpers F204.Impl.HighLow F204.Impl.Conversion
   F204.Spec.SpecConv F204.Spec.SpecRound F204.Spec.SpecNtt.
+(* the kernels these lemmas are about are the ones regenerated from /repo/src on every run (translator T4) *)
+Require F204.Proofs.KernelAgree.
 Open Scope Z_scope.
 Ltac Zify.zify_post_hook ::= Z.div_mod_to_equations.
 
